@@ -329,6 +329,23 @@ func c05rt(c *vf.Ctx, k *hdkeychain.ExtendedKey, where func() string) *ref.XKey 
 
 func c05roundtripCase(c *vf.Ctx, i int) {
 	net := c05netList[i%len(c05netList)]
+	if i%6 == 5 {
+		// a caller-defined network: NewMaster takes any *chaincfg.Params; its
+		// version bytes shape the leading characters and the LENGTH of the
+		// string (all-zero version bytes give the shortest encodings)
+		var v [4]byte
+		switch (i / 6) % 4 {
+		case 0: // all zero
+		case 1:
+			v = [4]byte{0xff, 0xff, 0xff, 0xff}
+		case 2:
+			v = [4]byte{0, 0, 0, byte(1 + c.R.Intn(255))}
+		default:
+			copy(v[:], c.R.Bytes(4))
+		}
+		net = c05net{netInfo{fmt.Sprintf("custom-%x", v), &chaincfg.Params{HDPrivateKeyID: v}}, v, v}
+		c.Inc("roundtrip_on_caller_defined_hd_version")
+	}
 	n := 16 + i%49
 	if i >= 49 {
 		n = c.R.Range(16, 64)
@@ -611,6 +628,45 @@ func c05forgedCase(c *vf.Ctx, i int) {
 	}
 }
 
+// c05zeroRunCase: valid private extended-key strings constructed so that the
+// Base58 number has ten zero digits ('1') in its middle.
+func c05zeroRunCase(c *vf.Ctx, i int) {
+	n := c05netList[i%len(c05netList)]
+	fixed := append([]byte{}, n.priv[:]...)
+	fixed = append(fixed, byte(c.R.Intn(4))) // depth
+	fixed = append(fixed, c.R.Bytes(4)...)   // parent fingerprint
+	fixed = append(fixed, c.R.Bytes(4)...)   // child number
+	fixed = append(fixed, c.R.Bytes(32)...)  // chain code
+	fixed = append(fixed, 0x00)              // private key marker
+	if fixed[4] == 0 {
+		for j := 5; j < 13; j++ {
+			fixed[j] = 0 // a master key has no parent and index 0
+		}
+	}
+	var body []byte
+	for try := 0; try < 8 && body == nil; try++ {
+		b, ok := b58ZeroRunBody(c.R, fixed, 78, 7+c.R.Intn(28), -1)
+		if !ok {
+			continue
+		}
+		d := new(big.Int).SetBytes(b[46:78])
+		if d.Sign() > 0 && d.Cmp(ref.SecN) < 0 {
+			body = b
+		}
+	}
+	if body == nil {
+		c.Inc("zero_run_construction_failed")
+		return
+	}
+	s := ref.B58Encode(c05sum(body))
+	c.Inc("xkey_strings_with_run_of_ten_zero_digits")
+	c.Nontrivial(vf.Mix(0x50, vf.HashString(s)))
+	c05check(c, "zero-digit-run", s)
+	if c.WantSample() {
+		c.Sample(map[string]string{"xprv_with_zero_digit_run": s})
+	}
+}
+
 func c05selfTest() error {
 	for _, f := range []func() error{ref.SelfTestSecp, ref.SelfTestBase58, ref.SelfTestBIP32} {
 		if err := f(); err != nil {
@@ -671,6 +727,7 @@ func init() {
 		Title: "Extended-key strings round-trip and are strictly validated",
 		Rule: "stream roundtrip: master and every node of random paths (depth 0..5, boundary and random indices, a quarter of the cases steered by an HMAC-only sibling search to children whose scalar has a leading zero byte), private and neutered, on every registered network: parse(String()) must give the same string, flag, depth, fingerprint and children; " +
 			"stream corrupt: valid 82-byte payloads (private / public, forced leading-zero scalars), every single-bit flip (656) and all 255 other values at 4 positions (positions rotate with the case index, all 82 covered), checksum not recomputed; " +
+			"stream zero-digit-runs: valid private keys constructed so that the Base58 number has ten zero digits in its middle; " +
 			"stream forged: recomputed-checksum families (scalars 0,1,2,n-2..n+2,2^255,2^256-1; every key prefix byte 0..255; off-curve x; x>=p incl. p+x0 with x0 on the curve; decoded lengths 0..122 other than 82; 1..4 extra leading '1'; zero version bytes; foreign characters; degenerate strings; leading-zero scalars; swapped parity; unproducible but valid keys; single wrong checksum bytes). " +
 			"Every string is judged by the reference validator; a case is distinct per payload.",
 		Assumptions: []string{
@@ -684,6 +741,7 @@ func init() {
 			{Name: "roundtrip", N: func(t vf.Tier) int { return t.Sz(6000, 100000) }, Run: c05roundtripCase},
 			{Name: "corrupt", N: func(t vf.Tier) int { return t.Sz(3000, 40000) }, Run: c05corruptCase},
 			{Name: "forged", N: func(t vf.Tier) int { return t.Sz(13*600, 13*10000) }, Run: c05forgedCase},
+			{Name: "zero-digit-runs", N: func(t vf.Tier) int { return t.Sz(1000, 20000) }, Run: c05zeroRunCase},
 		},
 	})
 }
